@@ -312,6 +312,17 @@ func curveSections(r *vlib.Run) {
 			n = 4
 		}
 		ctrl, _ := genCtrl(rng, n)
+		collapsed := false
+		if n == 4 && rng.Intn(4) == 0 {
+			// a cubic with one collapsed handle (first or last two control points equal): still a
+			// genuine arc, zero speed only at that end
+			collapsed = true
+			if rng.Intn(2) == 0 {
+				ctrl[1] = ctrl[0]
+			} else {
+				ctrl[2] = ctrl[3]
+			}
+		}
 		b := toBezier(ctrl)
 		relTol := logUniform(rng, 1e-6, 1e-2)
 		var lo, hi float64
@@ -341,7 +352,7 @@ func curveSections(r *vlib.Run) {
 			c.Undecided("length.subdivision-budget-reached")
 			return
 		}
-		if n == 4 && cubicSpeedRatio(ctrl) < 0.05 {
+		if n == 4 && !collapsed && cubicSpeedRatio(ctrl) < 0.05 {
 			c.Undecided("length.cubic-near-cusp")
 			return
 		}
@@ -361,6 +372,12 @@ func curveSections(r *vlib.Run) {
 			// it is held to ten times the requested tolerance only
 			path = "cubic"
 			allow = tol * 10
+			if collapsed {
+				// zero end speed weakens the error estimate: held to 100x the tolerance, which
+				// still separates an arc from its chord by orders of magnitude
+				path = "cubic-collapsed-handle"
+				allow = tol * 100
+			}
 		}
 		allow += 1e-9 * hi
 		cmax(c, "bezier.length_error_over_tol."+path, nanInf(off)/tol)
